@@ -11,6 +11,9 @@ two branch kinds and, interpreted with ElementTree modelled over 8 kinds of line
 it carries anything with hits=1 exactly when something of it is covered; storing a fresh execution
 result clears the changed flag in both runners, so all coverage functions and the report read the
 same executions.  Equality of line ids and line numbers across code objects is not decided.
+Further clauses (added later): C35.html: the lexer the HTML template instantiates yields one highlighted line
+per source line (evaluated with the repository's pygments); C35.regular-result: the result returned by the
+type-tracing executor is never the proxied execution's.
 """
 
 from __future__ import annotations
